@@ -229,6 +229,13 @@ func twConfigs(kind, tier string) []twCfg {
 				}
 			}
 		}
+		// a size that does not divide 24h: alignment to multiples of the size counted from the Unix epoch differs
+		// from alignment counted from any other origin (time.Truncate counts from year 1)
+		for _, ooo := range []int64{0, 2000} {
+			for _, eager := range []bool{false, true} {
+				out = append(out, twCfg{Kind: kind, SizeMs: 7000, OOOMs: ooo, Keys: 1, MaxL: maxL, Eager: eager})
+			}
+		}
 		out = append(out, twCfg{Kind: kind, SizeMs: 2000, OOOMs: 2000, Keys: 2, MaxL: maxL - 1, Eager: false},
 			twCfg{Kind: kind, SizeMs: 2000, OOOMs: 0, Keys: 2, MaxL: maxL - 1, Eager: true})
 		return out
@@ -239,6 +246,9 @@ func twConfigs(kind, tier string) []twCfg {
 				out = append(out, twCfg{Kind: kind, SizeMs: ss[0], Slide: ss[1], OOOMs: ooo, Keys: 1, MaxL: maxL, Eager: eager})
 			}
 		}
+	}
+	for _, eager := range []bool{false, true} {
+		out = append(out, twCfg{Kind: kind, SizeMs: 7000, Slide: 3500, OOOMs: 2000, Keys: 1, MaxL: maxL, Eager: eager}) // slide not dividing 24h
 	}
 	out = append(out, twCfg{Kind: kind, SizeMs: 4000, Slide: 2000, OOOMs: 2000, Keys: 2, MaxL: maxL - 1, Eager: false})
 	return out
